@@ -272,7 +272,10 @@ def run_driver(scratch, jdv, plan, tag):
     with open(pf, "w") as f:
         json.dump(plan, f)
     t0 = time.time()
-    p = subprocess.run([jdv, pf], stdout=subprocess.PIPE, stderr=subprocess.STDOUT, text=True)
+    # temporary files of the driver (documents entering through ReadJsonFile ...) live and die with the scratch directory
+    tmpd = scratch.sub("tmp-" + tag)
+    p = subprocess.run([jdv, pf], stdout=subprocess.PIPE, stderr=subprocess.STDOUT, text=True, env=dict(os.environ, TMPDIR=tmpd))
+    shutil.rmtree(tmpd, ignore_errors=True)
     if p.returncode != 0:
         if fatal_in_jd(p.stdout):
             raise FatalInJd(plan["driver"], p.stdout)
